@@ -641,6 +641,14 @@ void libxmp_mixer_softmixer(struct context_data *ctx)
 			get_current_sample(ctx, vi, &xxs, &xtra, &c5spd);
 		}
 
+		/* A one-shot sample that ends exactly at a tick boundary is left
+		 * still active up to one step past its end. Clamp like
+		 * loop_reposition does, or reversing it now (S9F) would start
+		 * reading beyond the padding of the sample data. */
+		if (vi->pos > xxs->len + 1) {
+			vi->pos = xxs->len + 1;
+		}
+
 		step = C4_PERIOD * c5spd / s->freq / vi->period;
 
 		/* Don't allow <=0, otherwise m5v-nwlf.it crashes
